@@ -60,23 +60,23 @@ type StatusSpec struct {
 
 // EnvSpec is a serialisable description of one envelope; Build fills in id and routing.
 type EnvSpec struct {
-	Name      string      `json:"name,omitempty"` // shape name, for reports
-	NoHeader  bool        `json:"no_header,omitempty"`
-	Method    *string     `json:"method,omitempty"` // override
-	Src       *string     `json:"src,omitempty"`
-	Dst       *string     `json:"dst,omitempty"`
-	HdrMD     []RawKV     `json:"hdr_md,omitempty"`
-	Body      *Payload    `json:"body,omitempty"`
-	Wrap      bool        `json:"wrap,omitempty"` // body is the protobuf encoding of BytesValue{Body} (a decodable message) rather than raw bytes
-	Status    *StatusSpec `json:"status,omitempty"`
-	Trailer   bool        `json:"trailer,omitempty"`
-	TrlMD     []RawKV     `json:"trl_md,omitempty"`
-	Reset     string      `json:"reset,omitempty"`
-	Record    []string    `json:"record,omitempty"` // proxy route record
-	Next      []string    `json:"next,omitempty"`
-	Target    int         `json:"target,omitempty"`     // which call/stream id slot this envelope addresses
-	IDOffset  uint64      `json:"id_offset,omitempty"`  // added to the resolved id (to hit unknown ids)
-	Empty     bool        `json:"empty,omitempty"`      // completely empty envelope (only id)
+	Name     string      `json:"name,omitempty"` // shape name, for reports
+	NoHeader bool        `json:"no_header,omitempty"`
+	Method   *string     `json:"method,omitempty"` // override
+	Src      *string     `json:"src,omitempty"`
+	Dst      *string     `json:"dst,omitempty"`
+	HdrMD    []RawKV     `json:"hdr_md,omitempty"`
+	Body     *Payload    `json:"body,omitempty"`
+	Wrap     bool        `json:"wrap,omitempty"` // body is the protobuf encoding of BytesValue{Body} (a decodable message) rather than raw bytes
+	Status   *StatusSpec `json:"status,omitempty"`
+	Trailer  bool        `json:"trailer,omitempty"`
+	TrlMD    []RawKV     `json:"trl_md,omitempty"`
+	Reset    string      `json:"reset,omitempty"`
+	Record   []string    `json:"record,omitempty"` // proxy route record
+	Next     []string    `json:"next,omitempty"`
+	Target   int         `json:"target,omitempty"`    // which call/stream id slot this envelope addresses
+	IDOffset uint64      `json:"id_offset,omitempty"` // added to the resolved id (to hit unknown ids)
+	Empty    bool        `json:"empty,omitempty"`     // completely empty envelope (only id)
 }
 
 // Build materialises the envelope.
